@@ -98,7 +98,7 @@ def lifecycle_scale_worlds(tier, seed):
     out = []
     for d in (many_deme_worlds(tier, seed) + long_history_worlds(tier, seed)[:2] + big_population_worlds(tier, seed, engines=[("SEA", "DE"), ("SHADE", "SEA"), ("GA", "CMAf")])
               + [dict(w, use_cache=False) for w in high_dimension_worlds(tier, seed)[:3]]):
-        out.append(("bounded", dict(d, choices="", gsc=d.get("gsc", {"kind": "horizon"}))))
+        out.append(("bounded", dict(d, choices="", gsc=d.get("gsc", {"kind": "horizon"}), time_cap=150.0)))
     for d in long_metaepoch_worlds(tier, seed):
         out.append(("bounded", dict(d, gsc={"kind": "horizon"}, max_bound=1)))
     return out
